@@ -18,10 +18,18 @@
          stmt = ( {[ var* ]} {{ stmt* }} )      (own symbol lists in [ ], nested blocks in { })
     dsn.fulljoined <dsn> <elem,…> | dsn.parsed <dsn> | dsn.expand <s> | dsn.expanded <dsn> | dsn.localjoined <elem,…>
     str.removeall <p> <s> | str.infix <p> <s>
+    alias.clear | alias.add <fullyname> <text>                           → ok        (the translation table entry `aliases.<fullyname>`)
+    naming <withTranspiler> <cls> <cls,…> <mod>      cls = fullyname:name:embedText|~:isPrefix (ancestors outermost first)
+                                                                         → S=domain_name|accessible_name|fullyname A=…
+    naming.nohandler <types.namespace> <module_path>                     → namespace | error   (string layer)
+    enum.value <name> <member,…>                                         → S=<index|IndexError> A=…
+    frag.relay | frag.dictiter | frag.subrelay | frag.subto | frag.classvar <text>      (string layer)
     s! <op…>      the same op, printing the string layer's answer only (inputs outside the abstract layer's domain)
 -/
 import Tranp.Driver.Common
 import Tranp.Model.ScopeStr
+import Tranp.Model.Naming
+import Tranp.Model.Fragment
 
 namespace Tranp.Driver.Scope
 open Tranp Tranp.Scope Tranp.Driver
@@ -44,6 +52,17 @@ structure St where
   tblS : ScopeStr.TblS := []
   tblA : Tbl Str Str := []
   libs : List Str := []
+  aliasS : NamingStr.AliasesS := []
+  aliasA : Naming.Aliases Str Str := []
+
+def parseClsS (s : String) : Option NamingStr.ClsS :=
+  match s.splitOn ":" with
+  | [f, n, e, p] => some ⟨unhexD f, unhexD n, if e == "~" then none else some ⟨unhexD e, bit p⟩⟩
+  | _ => none
+
+def clsA (c : NamingStr.ClsS) : Naming.Cls Str Str := ⟨decodeKey c.fullyname, c.name, c.embed⟩
+
+def showOpt (o : Option Str) : String := match o with | some s => "ok " ++ Str.hex s | none => "none"
 
 def showHit {α : Type} (enc : α → Str) : Except Err (Option α) → String
   | .error e => e.toString
@@ -177,6 +196,42 @@ def step1 (st : St) : List String → St × String
       let r := collect (Stmt.mapBlock varA block)
       (st, two (hexL (s.map (·.fullyname))) (hexL (r.map (fun v => ScopeStr.encKey v.fullyname))))
     | none => (st, "bad-op")
+  | ["alias.clear"] => ({ st with aliasS := [], aliasA := [] }, "ok")
+  | ["alias.add", fullyname, text] =>
+    let f := unhexD fullyname
+    ({ st with aliasS := st.aliasS ++ [(NamingStr.aliasDsn f, unhexD text)], aliasA := st.aliasA ++ [(decodeKey f, unhexD text)] }, "ok")
+  | ["naming", tr, cls, ancs, mod] =>
+    let ancsS := if ancs == "~" then some [] else (ancs.splitOn ",").mapM parseClsS
+    match parseClsS cls, ancsS with
+    | some c, some as =>
+      let mod := unhexD mod
+      let t := bit tr
+      let s := s!"{Str.hex (NamingStr.domainName (some st.aliasS) t c)}|{Str.hex (NamingStr.accessibleName st.aliasS t as c)}|{Str.hex (NamingStr.fullyname st.aliasS as c mod)}"
+      let asA := as.map clsA
+      let fa := Naming.fullyname st.aliasA asA (clsA c) mod
+      let a := s!"{Str.hex (NamingStr.encOut (Naming.domainName (some st.aliasA) t (clsA c)))}|{Str.hex (NamingStr.encPieces (Naming.accessibleName st.aliasA t asA (clsA c)))}|{Str.hex (ScopeStr.dsnJoin [fa.1, NamingStr.encPieces fa.2])}"
+      (st, two s a)
+    | _, _ => (st, "bad-op")
+  | ["naming.nohandler", ns, mod] =>
+    (st, match NamingStr.namespaceNoHandler (unhexD ns) (unhexD mod) with
+      | some r => "ok " ++ Str.hex r
+      | none => "error")
+  | ["enum.value", name, members] =>
+    let ms := unhexL members
+    let vars := ms.zipIdx
+    let show_ := fun (o : Option Nat) => match o with | some i => toString i | none => "IndexError"
+    (st, two (show_ (NamingStr.varValue vars (unhexD name))) (show_ (Naming.varValue vars (unhexD name))))
+  | ["frag.relay", t] =>
+    (st, match Fragment.breakRelay (unhexD t) with
+      | some (a, b) => s!"ok {Str.hex a}|{Str.hex b}"
+      | none => "none")
+  | ["frag.dictiter", t] =>
+    (st, match Fragment.breakDictIterator (unhexD t) with
+      | some (a, b, c) => s!"ok {Str.hex a}|{Str.hex b}|{Str.hex c}"
+      | none => "none")
+  | ["frag.subrelay", t] => (st, Str.hex (Fragment.subCvarRelay (unhexD t)))
+  | ["frag.subto", t] => (st, Str.hex (Fragment.subCvarTo (unhexD t)))
+  | ["frag.classvar", t] => (st, Str.hex (Fragment.pluckClassVarName (unhexD t)))
   | ["dsn.fulljoined", dsn, elems] => (st, Str.hex (ScopeStr.fullJoined (unhexD dsn) (unhexL elems)))
   | ["dsn.localjoined", elems] => (st, Str.hex (ScopeStr.localJoined (unhexL elems)))
   | ["dsn.parsed", dsn] => let p := ScopeStr.parsed (unhexD dsn); (st, s!"{Str.hex p.1}|{Str.hex p.2}")
